@@ -406,3 +406,404 @@ Proof.
     apply Nat.eqb_eq in H1. apply N.leb_le in H2. rewrite H1.
     apply offset_mono_col. assumption.
 Qed.
+
+(* ------------------------------------------------------------------------- *)
+(* 5. Positions on the line buffer                                            *)
+(* ------------------------------------------------------------------------- *)
+
+Definition pre_at (d : list (list char)) (n : nat) (c : N) : list char :=
+  match nth_error d n with Some l => take16 0 c l | None => [] end.
+Definition suf_at (d : list (list char)) (n : nat) (c : N) : list char :=
+  match nth_error d n with Some l => drop16 0 c l | None => [] end.
+
+(* character offset denoted by a (line, column) position of the line buffer *)
+Definition loff (d : list (list char)) (p : pos) : nat :=
+  length (concat (firstn (line p) d) ++ pre_at d (line p) (chr p)).
+
+Lemma concat_decomp : forall d n c,
+  concat d = (concat (firstn n d) ++ pre_at d n c)
+             ++ suf_at d n c ++ concat (skipn (S n) d).
+Proof.
+  induction d as [|x d IH]; intros n c.
+  - destruct n; reflexivity.
+  - destruct n as [|n]; unfold pre_at, suf_at in *; cbn [nth_error firstn skipn concat app].
+    + rewrite app_assoc, take_drop16. reflexivity.
+    + rewrite (IH n c) at 1. rewrite <- !app_assoc. reflexivity.
+Qed.
+
+Lemma firstn_loff : forall d p,
+  firstn (loff d p) (concat d) = concat (firstn (line p) d) ++ pre_at d (line p) (chr p).
+Proof.
+  intros d p. unfold loff. eapply firstn_len_eq. apply concat_decomp.
+Qed.
+
+Lemma skipn_loff : forall d p,
+  skipn (loff d p) (concat d) = suf_at d (line p) (chr p) ++ concat (skipn (S (line p)) d).
+Proof.
+  intros d p. unfold loff. eapply skipn_len_eq. apply concat_decomp.
+Qed.
+
+Lemma loff_cons : forall x d n c,
+  loff (x :: d) (P (S n) c) = (length x + loff d (P n c))%nat.
+Proof.
+  intros x d n c. unfold loff, pre_at. cbn [line chr P nth_error firstn concat].
+  rewrite <- app_assoc, app_length. reflexivity.
+Qed.
+
+Lemma loff_mono_line : forall d l1 l2 c1 c2, (l1 < l2)%nat ->
+  (loff d (P l1 c1) <= loff d (P l2 c2))%nat.
+Proof.
+  induction d as [|x d IH]; intros l1 l2 c1 c2 Hlt.
+  - unfold loff, pre_at. cbn [line chr P]. destruct l1; destruct l2; cbn; lia.
+  - destruct l2 as [|l2]; [lia|]. destruct l1 as [|l1].
+    + rewrite loff_cons. unfold loff at 1, pre_at. cbn [line chr P nth_error firstn concat app].
+      pose proof (take16_length_le x 0 c1). lia.
+    + rewrite !loff_cons. specialize (IH l1 l2 c1 c2). lia.
+Qed.
+
+Lemma loff_mono_col : forall d l c1 c2, c1 <= c2 ->
+  (loff d (P l c1) <= loff d (P l c2))%nat.
+Proof.
+  intros d l c1 c2 Hle. unfold loff, pre_at. cbn [line chr P].
+  rewrite !app_length. destruct (nth_error d l) as [x|]; [|lia].
+  pose proof (take16_length_mono x 0 c1 c2 Hle). lia.
+Qed.
+
+Lemma loff_mono : forall d p q, pos_leb p q = true -> (loff d p <= loff d q)%nat.
+Proof.
+  intros d [l1 c1] [l2 c2] H. unfold pos_leb in H. cbn [line chr] in H.
+  apply orb_true_iff in H. destruct H as [H|H].
+  - apply Nat.ltb_lt in H. apply (loff_mono_line d l1 l2 c1 c2). assumption.
+  - apply andb_true_iff in H. destruct H as [H1 H2].
+    apply Nat.eqb_eq in H1. apply N.leb_le in H2. subst l2.
+    apply (loff_mono_col d l1 c1 c2). assumption.
+Qed.
+
+Lemma pos_leb_total : forall p q, pos_leb q p = false -> pos_leb p q = true.
+Proof.
+  intros p q H. unfold pos_leb in *.
+  destruct (Nat.ltb_spec (line q) (line p)) as [H1|H1]; [discriminate H|].
+  destruct (Nat.ltb_spec (line p) (line q)) as [H2|H2]; [reflexivity|].
+  cbn [orb] in *.
+  destruct (Nat.eqb_spec (line q) (line p)) as [H3|H3]; [|lia].
+  destruct (Nat.eqb_spec (line p) (line q)) as [H4|H4]; [|lia].
+  cbn [andb] in *.
+  destruct (N.leb_spec (chr q) (chr p)) as [H5|H5]; [discriminate H|].
+  apply N.leb_le. lia.
+Qed.
+
+Lemma pos_leb_line : forall p q, pos_leb p q = true -> (line p <= line q)%nat.
+Proof.
+  intros p q H. unfold pos_leb in H. apply orb_true_iff in H. destruct H as [H|H].
+  - apply Nat.ltb_lt in H. lia.
+  - apply andb_true_iff in H. destruct H as [H _]. apply Nat.eqb_eq in H. lia.
+Qed.
+
+(* clamp on a longer document *)
+Lemma clamp_cons : forall x d l c, ends_nl x = true ->
+  clamp (x :: d) (P (S l) c) = P (S (line (clamp d (P l c)))) (chr (clamp d (P l c))).
+Proof.
+  intros x d l c Hx. unfold clamp. cbn [line chr P nth_error].
+  destruct (nth_error d l) as [y|].
+  - reflexivity.
+  - destruct d as [|y d].
+    + cbn [length Nat.sub nth]. rewrite Hx. reflexivity.
+    + cbn [length].
+      replace (S (S (length d)) - 1)%nat with (S (length d)) by lia.
+      replace (S (length d) - 1)%nat with (length d) by lia.
+      change (nth (S (length d)) (x :: y :: d) []) with (nth (length d) (y :: d) []).
+      destruct (ends_nl (nth (length d) (y :: d) [])); reflexivity.
+Qed.
+
+(* positions produced by clamp *)
+Definition valid (d : list (list char)) (p : pos) : Prop :=
+  (line p <= length d)%nat /\ lfdoc (firstn (line p) d) /\
+  (forall l, nth_error d (line p) = Some l -> chr p <= content_len16 l).
+
+Lemma valid_cons : forall b d q, clean b -> valid d q ->
+  valid ((b ++ [LF]) :: d) (P (S (line q)) (chr q)).
+Proof.
+  intros b d q Hb [H1 [H2 H3]]. unfold valid. cbn [line chr P length firstn nth_error].
+  split; [lia|]. split.
+  - constructor; [|assumption]. exists b. split; [assumption|reflexivity].
+  - assumption.
+Qed.
+
+Lemma clamp_valid : forall d, cdoc d -> forall l c, valid d (clamp d (P l c)).
+Proof.
+  induction 1 as [|b Hb Hne|b d Hb Hd IH]; intros l c.
+  - replace (clamp [] (P l c)) with (P 0 0) by (destruct l; reflexivity).
+    unfold valid. cbn [line chr P length firstn nth_error].
+    split; [lia|]. split; [constructor|]. intros l0 H0. discriminate H0.
+  - destruct l as [|l].
+    + change (clamp [b] (P 0 c)) with (P 0 (N.min c (content_len16 b))).
+      unfold valid. cbn [line chr P length firstn nth_error].
+      split; [lia|]. split; [constructor|].
+      intros l0 H0. inversion H0. subst l0. apply N.le_min_r.
+    + replace (clamp [b] (P (S l) c)) with (P 0 (content_len16 b)).
+      * unfold valid. cbn [line chr P length firstn nth_error].
+        split; [lia|]. split; [constructor|].
+        intros l0 H0. inversion H0. subst l0. apply N.le_refl.
+      * unfold clamp. cbn [line chr P nth_error].
+        replace (nth_error (@nil (list char)) l) with (@None (list char)) by (destruct l; reflexivity).
+        cbn [length Nat.sub nth]. rewrite ends_nl_clean by assumption. reflexivity.
+  - destruct l as [|l].
+    + change (clamp ((b ++ [LF]) :: d) (P 0 c))
+        with (P 0 (N.min c (content_len16 (b ++ [LF])))).
+      unfold valid. cbn [line chr P length firstn nth_error].
+      split; [lia|]. split; [constructor|].
+      intros l0 H0. inversion H0. subst l0. apply N.le_min_r.
+    + rewrite clamp_cons by apply ends_nl_lf.
+      apply valid_cons; [assumption|apply IH].
+Qed.
+
+(* the offset computed on the text is the offset of the clamped position *)
+Lemma offset_loff : forall d, cdoc d -> forall l c,
+  offset l c (concat d) = loff d (clamp d (P l c)).
+Proof.
+  induction 1 as [|b Hb Hne|b d Hb Hd IH]; intros l c.
+  - replace (clamp [] (P l c)) with (P 0 0) by (destruct l; reflexivity).
+    cbn [concat]. rewrite offset_nil. reflexivity.
+  - cbn [concat]. destruct l as [|l].
+    + change (clamp [b] (P 0 c)) with (P 0 (N.min c (content_len16 b))).
+      rewrite offset_0, offset_col_line by (auto).
+      unfold loff, pre_at. cbn [line chr P nth_error firstn concat app].
+      rewrite content_len16_clean by assumption.
+      rewrite <- (take16_min b 0 c). rewrite N.add_0_l. reflexivity.
+    + replace (clamp [b] (P (S l) c)) with (P 0 (content_len16 b)).
+      * rewrite app_nil_r, offset_S_end by assumption.
+        unfold loff, pre_at. cbn [line chr P nth_error firstn concat app].
+        rewrite content_len16_clean by assumption.
+        rewrite take16_all; [reflexivity|]. lia.
+      * unfold clamp. cbn [line chr P nth_error].
+        replace (nth_error (@nil (list char)) l) with (@None (list char)) by (destruct l; reflexivity).
+        cbn [length Nat.sub nth]. rewrite ends_nl_clean by assumption. reflexivity.
+  - cbn [concat]. rewrite <- app_assoc. cbn [app]. destruct l as [|l].
+    + change (clamp ((b ++ [LF]) :: d) (P 0 c))
+        with (P 0 (N.min c (content_len16 (b ++ [LF])))).
+      rewrite offset_0, offset_col_line by (eauto).
+      unfold loff, pre_at. cbn [line chr P nth_error firstn concat app].
+      rewrite content_len16_lf.
+      rewrite take16_app_le by (rewrite N.add_0_l; apply N.le_min_r).
+      rewrite <- (take16_min b 0 c). rewrite N.add_0_l. reflexivity.
+    + rewrite offset_S_line by assumption. rewrite IH.
+      rewrite clamp_cons by apply ends_nl_lf.
+      rewrite loff_cons. rewrite app_length. cbn [length].
+      destruct (clamp d (P l c)) as [l' c']. cbn [line chr]. unfold P. lia.
+Qed.
+
+Lemma offset_of_loff : forall d p, cdoc d -> offset_of (concat d) p = loff d (clamp d p).
+Proof.
+  intros d [l c] Hd. unfold offset_of. cbn [line chr]. apply (offset_loff d Hd l c).
+Qed.
+
+(* ------------------------------------------------------------------------- *)
+(* 6. `change` on canonical buffers                                           *)
+(* ------------------------------------------------------------------------- *)
+
+Definition fixup (d : list (list char)) (q : pos) (merged : list char) : list char :=
+  if (Nat.ltb (line q) (length d - 1)) && negb (lastc merged =? LF)
+  then merged ++ [LF] else merged.
+
+Definition change_ne (d : list (list char)) (st0 en0 : pos) (t : list char)
+  : option (list (list char)) :=
+  let st := clamp d st0 in
+  let en := pos_max st (clamp d en0) in
+  splice_lines d (line st) (Nat.min (length d - 1) (line en))
+    (split_lines (fixup d en (pre_at d (line st) (chr st) ++ t ++ suf_at d (line en) (chr en)))).
+
+Lemma change_ne_eq : forall d st en t, d <> [] -> change d st en t = change_ne d st en t.
+Proof. intros d st en t Hd. destruct d; [congruence|reflexivity]. Qed.
+
+Lemma skipn_nil_ge : forall (A : Type) (l : list A) n, (length l <= n)%nat -> skipn n l = [].
+Proof.
+  intros A l. induction l as [|x l IH]; intros n Hn.
+  - destruct n; reflexivity.
+  - destruct n as [|n]; cbn [length] in Hn; [lia|]. cbn [skipn]. apply IH. lia.
+Qed.
+
+Lemma change_core : forall d p q t, cdoc d -> d <> [] -> valid d p -> valid d q ->
+  (line p <= line q)%nat ->
+  splice_lines d (line p) (Nat.min (length d - 1) (line q))
+    (split_lines (fixup d q (pre_at d (line p) (chr p) ++ t ++ suf_at d (line q) (chr q))))
+  = Some (split_lines ((concat (firstn (line p) d) ++ pre_at d (line p) (chr p))
+                       ++ t ++ suf_at d (line q) (chr q) ++ concat (skipn (S (line q)) d))).
+Proof.
+  intros d p q t Hd Hne [Hp1 [Hp2 Hp3]] [Hq1 [Hq2 Hq3]] Hpq.
+  assert (Hlen : (0 < length d)%nat) by (destruct d; [congruence|cbn [length]; lia]).
+  unfold splice_lines.
+  destruct (Nat.ltb_spec (S (Nat.min (length d - 1) (line q))) (line p)) as [H1|H1]; [lia|].
+  destruct (Nat.ltb_spec (length d) (S (Nat.min (length d - 1) (line q)))) as [H2|H2]; [lia|].
+  cbn [orb]. f_equal.
+  unfold split_lines at 2. rewrite <- app_assoc.
+  rewrite split_lfdoc_app by assumption. f_equal.
+  fold (split_lines (pre_at d (line p) (chr p) ++ t ++ suf_at d (line q) (chr q)
+                     ++ concat (skipn (S (line q)) d))).
+  unfold fixup.
+  destruct (Nat.ltb_spec (line q) (length d - 1)) as [Hlt|Hge].
+  - (* the end position is on a non-last line: its suffix keeps the LF *)
+    rewrite Nat.min_r by lia.
+    assert (Hnth : exists l, nth_error d (line q) = Some l).
+    { destruct (nth_error d (line q)) as [l|] eqn:E; [eauto|].
+      apply nth_error_None in E. lia. }
+    destruct Hnth as [l Hl].
+    destruct (cdoc_nonlast d Hd (line q) l) as [b Hb]; [lia|assumption|]. subst l.
+    specialize (Hq3 _ Hl). rewrite content_len16_lf in Hq3.
+    unfold suf_at. rewrite Hl.
+    rewrite drop16_app_le by (rewrite N.add_0_l; assumption).
+    replace (pre_at d (line p) (chr p) ++ t ++ drop16 0 (chr q) b ++ [LF])
+      with ((pre_at d (line p) (chr p) ++ t ++ drop16 0 (chr q) b) ++ [LF])
+      by (rewrite <- !app_assoc; reflexivity).
+    rewrite lastc_app_lf, N.eqb_refl. cbn [negb andb].
+    replace (pre_at d (line p) (chr p) ++ t ++ (drop16 0 (chr q) b ++ [LF])
+             ++ concat (skipn (S (line q)) d))
+      with (((pre_at d (line p) (chr p) ++ t ++ drop16 0 (chr q) b) ++ [LF])
+            ++ concat (skipn (S (line q)) d))
+      by (rewrite <- !app_assoc; reflexivity).
+    rewrite split_lines_lf_app. f_equal.
+    symmetry. apply cdoc_canonical, cdoc_skipn, Hd.
+  - (* the end position is on the last line or past the end *)
+    cbn [andb]. rewrite Nat.min_l by lia.
+    rewrite (skipn_nil_ge _ d (S (length d - 1))) by lia.
+    rewrite (skipn_nil_ge _ d (S (line q))) by lia.
+    cbn [concat]. rewrite !app_nil_r. reflexivity.
+Qed.
+
+Lemma pos_max_cases : forall d p r,
+  let q := pos_max p r in
+  (q = p \/ q = r) /\ (line p <= line q)%nat /\ loff d q = Nat.max (loff d p) (loff d r).
+Proof.
+  intros d p r. unfold pos_max. cbn zeta.
+  destruct (pos_leb r p) eqn:E.
+  - split; [left; reflexivity|]. split; [lia|].
+    pose proof (loff_mono d r p E). lia.
+  - apply pos_leb_total in E.
+    split; [right; reflexivity|]. split; [apply pos_leb_line; assumption|].
+    pose proof (loff_mono d p r E). lia.
+Qed.
+
+Theorem change_total_spec :
+  forall d st en t, canonical d ->
+    let s := concat d in
+    let a := offset_of s st in
+    let b := offset_of s en in
+    change d st en t = Some (split_lines (splice s a (Nat.max a b) t)).
+Proof.
+  intros d st en t Hc. cbn zeta. apply canonical_cdoc in Hc.
+  assert (Hcase : d = [] \/ d <> []) by (destruct d; [left; reflexivity|right; discriminate]).
+  destruct Hcase as [Hnil|Hne].
+  - subst d. cbn [change concat]. unfold offset_of. rewrite !offset_nil.
+    unfold splice. cbn [Nat.max firstn skipn app]. rewrite app_nil_r. reflexivity.
+  - rewrite change_ne_eq by assumption. unfold change_ne. cbn zeta.
+    rewrite !offset_of_loff by assumption.
+    set (p := clamp d st). set (r := clamp d en).
+    destruct (pos_max_cases d p r) as [Hq [Hline Hoff]].
+    set (q := pos_max p r) in *.
+    assert (Hvp : valid d p) by (destruct st as [l c]; apply clamp_valid; assumption).
+    assert (Hvr : valid d r) by (destruct en as [l c]; apply clamp_valid; assumption).
+    assert (Hvq : valid d q) by (destruct Hq as [Hq|Hq]; rewrite Hq; assumption).
+    rewrite change_core by assumption.
+    rewrite <- Hoff. unfold splice. rewrite firstn_loff, skipn_loff. reflexivity.
+Qed.
+
+Theorem change_refines_splice :
+  forall d st en t, canonical d -> pos_leb st en = true ->
+    let s := concat d in
+    change d st en t = Some (split_lines (splice s (offset_of s st) (offset_of s en) t)).
+Proof.
+  intros d st en t Hc Hle s.
+  pose proof (change_total_spec d st en t Hc) as H. cbn zeta in H. fold s in H.
+  rewrite H. rewrite Nat.max_r by (apply offset_of_mono; assumption). reflexivity.
+Qed.
+
+Theorem change_never_crashes :
+  forall d st en t, canonical d -> exists d', change d st en t = Some d' /\ canonical d'.
+Proof.
+  intros d st en t Hc.
+  pose proof (change_total_spec d st en t Hc) as H. cbn zeta in H.
+  eexists. split; [exact H|apply split_canonical].
+Qed.
+
+(* ------------------------------------------------------------------------- *)
+(* 7. Histories                                                               *)
+(* ------------------------------------------------------------------------- *)
+
+Lemma history_refines_gen : forall es d0, canonical d0 -> forallb wf_edit es = true ->
+  exists d, apply_edits d0 es = Some d
+            /\ concat d = spec_edits (concat d0) es
+            /\ canonical d.
+Proof.
+  induction es as [|e es IH]; intros d0 Hc Hwf.
+  - exists d0. split; [reflexivity|]. split; [reflexivity|assumption].
+  - cbn [forallb] in Hwf. apply andb_true_iff in Hwf. destruct Hwf as [He Hes].
+    unfold spec_edits. cbn [apply_edits fold_left].
+    destruct e as [t|st en t].
+    + cbn [apply_edit spec_edit].
+      destruct (IH (split_lines t) (split_canonical t) Hes) as [d [H1 [H2 H3]]].
+      exists d. split; [assumption|]. split; [|assumption].
+      rewrite H2. reflexivity.
+    + cbn [apply_edit spec_edit wf_edit] in *.
+      pose proof (change_refines_splice d0 st en t Hc He) as Hch. cbn zeta in Hch.
+      rewrite Hch.
+      match type of Hch with _ = Some ?d1 =>
+        destruct (IH d1 (split_canonical _) Hes) as [d [H1 [H2 H3]]] end.
+      exists d. split; [assumption|]. split; [|assumption].
+      rewrite H2. reflexivity.
+Qed.
+
+Theorem history_refines :
+  forall es s0, forallb wf_edit es = true ->
+    exists d, apply_edits (split_lines s0) es = Some d
+              /\ concat d = spec_edits (normalize s0) es
+              /\ canonical d.
+Proof.
+  intros es s0 Hwf.
+  apply (history_refines_gen es (split_lines s0) (split_canonical s0) Hwf).
+Qed.
+
+Lemma history_never_crashes_gen : forall es d0, canonical d0 ->
+  exists d, apply_edits d0 es = Some d /\ canonical d.
+Proof.
+  induction es as [|e es IH]; intros d0 Hc.
+  - exists d0. split; [reflexivity|assumption].
+  - cbn [apply_edits]. destruct e as [t|st en t]; cbn [apply_edit].
+    + apply IH. apply split_canonical.
+    + destruct (change_never_crashes d0 st en t Hc) as [d1 [H1 H2]].
+      rewrite H1. apply IH. assumption.
+Qed.
+
+Theorem history_never_crashes :
+  forall es s0, exists d, apply_edits (split_lines s0) es = Some d /\ canonical d.
+Proof.
+  intros es s0. apply history_never_crashes_gen. apply split_canonical.
+Qed.
+
+(* ------------------------------------------------------------------------- *)
+(* 8. The pre-fix code, and non-vacuity                                       *)
+(* ------------------------------------------------------------------------- *)
+
+Theorem change_old_refuted :
+  exists d st en t, canonical d /\ pos_leb st en = true /\
+    change_old d st en t <>
+      Some (split_lines (splice (concat d) (offset_of (concat d) st) (offset_of (concat d) en) t)).
+Proof.
+  exists (split_lines [97; 98; LF; 99; 100; LF]), (P 0 1), (P 0 99), [88; LF].
+  split; [apply split_canonical|]. split; [reflexivity|].
+  vm_compute. intro H. discriminate H.
+Qed.
+
+Theorem change_old_crashes :
+  exists d st en t, canonical d /\ pos_leb st en = true /\ change_old d st en t = None.
+Proof.
+  exists (split_lines [97; 98]), (P 5 0), (P 5 0), [88].
+  split; [apply split_canonical|]. split; reflexivity.
+Qed.
+
+Example hyps_satisfiable :
+  let d := split_lines [97; 128512; CR; LF; 98; CR; LF; 99] in
+  canonical d /\ length d = 3%nat /\ pos_leb (P 0 1) (P 2 7) = true /\
+  change d (P 0 1) (P 2 7) [120; CR; LF; 121] = Some [[97; 120; LF]; [121]].
+Proof.
+  cbn zeta. split; [apply split_canonical|].
+  split; [reflexivity|]. split; [reflexivity|]. vm_compute. reflexivity.
+Qed.
